@@ -205,3 +205,37 @@ func (yt *YangTree) RootChildNames() []string {
 	sort.Strings(out)
 	return out
 }
+
+// RootList is a list that becomes a child of the fake root under path compression.
+type RootList struct {
+	Name string
+	Keys []string
+}
+
+// RootLists lists the top-level lists and the lists directly inside a top-level container.
+func (yt *YangTree) RootLists() []RootList {
+	var out []RootList
+	var add func(e *yang.Entry, depth int)
+	add = func(e *yang.Entry, depth int) {
+		var names []string
+		for n := range e.Dir {
+			names = append(names, n)
+		}
+		sort.Strings(names)
+		for _, n := range names {
+			c := e.Dir[n]
+			switch {
+			case c.IsChoice() || c.IsCase():
+				add(c, depth)
+			case c.IsList():
+				out = append(out, RootList{Name: n, Keys: strings.Fields(c.Key)})
+			case depth == 0 && c.IsContainer():
+				add(c, 1)
+			}
+		}
+	}
+	for _, r := range yt.roots {
+		add(r, 0)
+	}
+	return out
+}
